@@ -31,8 +31,10 @@ under `u` or `v` (stage C, `Canonicalize` = Unicode 17 simple case folding by `P
 literal characters (`unfold_char`), `.`, `\b \B`, case-insensitive back-references
 (`backref_icase`), class escapes, property escapes, brackets under `iu` (`add_icase_code_points`
 once, at the end) and class set expressions under `iv` (the specification's folded CharSets against
-`close_class_set_operand`).  Not yet covered (the statement is kept visible below): `\q{…}` strings,
-properties of strings and named back-references to duplicated names (stage D).  The input's `unicode` flag must be the pattern's
+`close_class_set_operand`); and (stage D, without `i`) `v`-mode classes with `\q{…}` strings
+(ordered choice by descending length, `ClassSet::node`).  Not yet covered (the statement is kept
+visible below): `\q{…}` strings together with `i`, properties of strings, and named back-references
+to duplicated names.  The input's `unicode` flag must be the pattern's
 (`inp.unicode = (f.u || f.v)`, as `Proofs/Keystone.lean` assumes too).  Legacy (non-`u`/`v`) `i` is excluded on purpose: the crate is known to differ from
 the specification there (finding F8).
 -/
@@ -281,6 +283,23 @@ example (r : Regex) (h : toIR { i := true, v := true } exAstIV = .ok r) (fuel : 
       (ES.RER.ofFlags { i := true, v := true } (ES.countParens exAstIV)) fuel 0)
       (firstMatch exInpI r.node (Utf8.off [0x212A, 0x4B, 0x17F, 0x41] 0)) :=
   lower_attempt_partial_nf exAstIV_nf exAstIV_supported h exInpI_text rfl 0 (by decide) fuel
+
+/-- `/[\q{abc|ab|}a--\q{ab}]x/v`: a class with strings, subtraction of a string, the empty string. -/
+def exAstS : ES.Node :=
+  .cat [.vcls false .sub [.cls false .union [.q [[0x61, 0x62, 0x63], [0x61, 0x62], []], .c 0x61],
+                          .q [[0x61, 0x62]]], .char 0x78]
+
+theorem exAstS_nf : normalize exAstS = exAstS := by rfl
+theorem exAstS_supported : supported exAstS (irFlags { v := true }) exAstS = true := by decide +kernel
+
+def exInpS : Input := { kind := .utf8, bytes := Utf8.text [0x61, 0x62, 0x78], unicode := true }
+theorem exInpS_text : Utf8Text exInpS [0x61, 0x62, 0x78] := ⟨rfl, rfl, by decide⟩
+
+example (r : Regex) (h : toIR { v := true } exAstS = .ok r) (fuel : Nat) (i : Nat) (hi : i ≤ 3) :
+    AttemptAgrees [0x61, 0x62, 0x78] (ES.matchAt #[0x61, 0x62, 0x78] exAstS
+      (ES.RER.ofFlags { v := true } (ES.countParens exAstS)) fuel i)
+      (firstMatch exInpS r.node (Utf8.off [0x61, 0x62, 0x78] i)) :=
+  lower_attempt_partial_nf exAstS_nf exAstS_supported h exInpS_text rfl i hi fuel
 
 end Regress.Lower
 
